@@ -2,6 +2,7 @@ package rueidis
 
 import (
 	"fmt"
+	"github.com/redis/rueidis/internal/cmds"
 	"os"
 	"path/filepath"
 	"strings"
@@ -90,3 +91,5 @@ func q(b []byte) string {
 	}
 	return fmt.Sprintf("%q", b)
 }
+
+func cmdsNew(ss ...string) cmds.Completed { return cmds.NewCompleted(ss) }
